@@ -1,6 +1,7 @@
 package c18
 
 import (
+	"math"
 	"strconv"
 	"strings"
 
@@ -28,6 +29,7 @@ var floatTable = []string{
 	"2.718281828459045e0", "1e21", "1e22", "1e23", "1e-7", "123456.789e3", "5e-300", "2.2250738585072014e-300",
 	"1.7976931348623157e300", "1e300", "1e-300", "0.000001", "9007199254740993.0", "0.30000000000000004",
 	"1.0000000000000002", "4.35", "0.000123", "100.0", "1e15", "1e16", "123456789012.5", "8.41e21", "2.5e-10", "9.5e-1",
+	"0.030000000000000002", "0.012345678901234567", "0.0030000000000000001", "-0.099999999999999992", "0.00012345678901234567", "1.7976931348623157e-5",
 	"123456789.123456789012345", "0.1234567890123456789", "12345678901234567890.5", "1.00000000000000000001",
 }
 
@@ -90,6 +92,33 @@ func genFloat(rt *rapid.T, wide bool) Node {
 		}
 	}
 	var b strings.Builder
+	switch rapid.IntRange(0, 7).Draw(rt, "f-kind") {
+	case 0:
+		// as many digits as a double has, behind leading zeros: long fractions that are not wide (17 significant digits)
+		if rapid.Bool().Draw(rt, "f-neg") {
+			b.WriteByte('-')
+		}
+		b.WriteString("0.")
+		b.WriteString(strings.Repeat("0", rapid.IntRange(0, 6).Draw(rt, "f-lead0")))
+		b.WriteString(digits(rt, "fl", rapid.IntRange(14, 17).Draw(rt, "f-llen")))
+		return Node{T: "float", S: b.String()}
+	case 1:
+		// any double, written the shortest way that reads back to it, positional where that is reasonable
+		f := rapid.Float64().Draw(rt, "f-any")
+		if a := math.Abs(f); a == 0 || math.IsInf(f, 0) || math.IsNaN(f) || a > 1e300 || a < 1e-300 {
+			f = 0.1
+		}
+		lit := strconv.FormatFloat(f, 'g', -1, 64)
+		if a := math.Abs(f); a >= 1e-9 && a < 1e21 {
+			lit = strconv.FormatFloat(f, 'f', -1, 64)
+			if !strings.Contains(lit, ".") {
+				lit += ".0"
+			}
+		}
+		if wide || !refpath.Wide(lit) {
+			return Node{T: "float", S: lit}
+		}
+	}
 	if rapid.Bool().Draw(rt, "f-neg") {
 		b.WriteByte('-')
 	}
